@@ -4,8 +4,8 @@
 From Coq Require Import List NArith ZArith Bool Lia Arith.
 From Coq Require Import ZifyN ZifyNat ZifyBool.
 From LW Require Import Base.Outcome Base.Bytes Crypto.AES Crypto.CMAC Mac.Commands Mac.Spec Mac.Stream
-     Frame.Model Frame.Spec Sec.MIC Sec.MICSpec Sec.MICProofs Sec.Encrypt Sec.EncryptSpec Sec.EncryptProofs
-     Sec.EndToEnd.
+     Frame.Model Frame.Spec Frame.CanonProofs Sec.MIC Sec.MICSpec Sec.MICProofs Sec.Encrypt Sec.EncryptSpec
+     Sec.EncryptProofs Sec.EndToEnd.
 Import ListNotations.
 Open Scope N_scope.
 Ltac Zify.zify_post_hook ::= Z.div_mod_to_equations.
@@ -139,3 +139,25 @@ Theorem tamper_noncanonical_refuted :
             (spec_data_mic LoRaWAN1_0 true c05_2_keys (mkParams 0 0 0) false [1; 2; 3; 4] 5 (firstn 12 c05_2_bytes))
   = false.
 Proof. split; vm_compute; reflexivity. Qed.
+
+(* the premise discharged with LW.Frame.CanonProofs.phy_canonical (C08): received byte strings whose
+   MHDR RFU bits (bits 2..4 of the first byte) are zero *)
+Theorem tamper_received_bytes ver up k prm full bs b :
+  Forall (fun x => x < 256) bs -> rfu_zero bs = true -> rx_validate ver up k prm full bs = Ok b ->
+  exists p m,
+    phy_unmarshal bs = Ok p /\ pl p = PLMac m /\
+    (full mod 65536 = fcnt (hdr m) mod 65536 ->
+     length (devaddr (hdr m)) = 4%nat -> (length bs - 4 < 256)%nat ->
+     b = bytes_eqb (skipn (length bs - 4) bs)
+                   (spec_data_mic ver up k prm (ack (fc (hdr m))) (devaddr (hdr m)) full
+                                  (firstn (length bs - 4) bs))).
+Proof.
+  intros Hb Hr.
+  apply (tamper_bytes (fun l => bytes l /\ rfu_zero l = true)).
+  - intros l p [H1 H2]. now apply phy_canonical.
+  - split; assumption.
+Qed.
+
+(* the refuted witness is exactly a byte string with an RFU bit set *)
+Example c05_2_bytes_rfu : rfu_zero c05_2_bytes = false.
+Proof. reflexivity. Qed.
